@@ -2,7 +2,7 @@
    Property statements only; every proof is `exact <lemma>` or a vm_compute witness.
    Model: Model/IoapiGeo.v (ioapi_base.sliceDimensions metadata updates) on Base/Calendar.v.
    Which data cells a window retains is C02; here: the metadata is moved to exactly that window. *)
-From PNC Require Import Base.Util Base.Calendar Model.IoapiGeo Proofs.IoapiGeoProofs.
+From PNC Require Import Base.Util Base.Calendar Model.IoapiGeo Proofs.IoapiGeoProofs Gen.Times Proofs.TimesGenProofs.
 Local Open Scope Z_scope.
 
 (* selector normalisation: every int (positive or negative) and every unit-stride slice that numpy accepts
@@ -54,6 +54,32 @@ Theorem C11_start_step_preserved : forall t0 tstep n sdate stime s d h ts,
     /\ forall j, 0 <= j < cnt -> attr_time d h ts j = t0 + (st + j) * sec_of_hhmmss tstep.
 Proof. exact times_subrange. Qed.
 Print Assumptions C11_start_step_preserved.
+
+(* combined windows: the metadata of a window over TSTEP, LAY, ROW and COL together is the per-dimension
+   update of each, and subsetting returns exactly when every dimension's window is non-empty and in range *)
+Theorem C11_combined_window : forall g w o,
+  impl_window g w = Some o ->
+  impl_slice_origin (g_xorig g) (g_xcell g) (g_nc g) (w_c w) = Some (o_xorig o)
+  /\ impl_slice_origin (g_yorig g) (g_ycell g) (g_nr g) (w_r w) = Some (o_yorig o)
+  /\ impl_slice_vglvls (g_lv g) (w_l w) = Some (o_lv o)
+  /\ impl_slice_time (sec_of_flag (g_sdate g) (g_stime g)) (g_tstep g) (g_nt g) (g_sdate g) (g_stime g) (w_t w)
+     = Some (o_sdate o, o_stime o, o_tstep o)
+  /\ impl_window_times (sec_of_flag (g_sdate g) (g_stime g)) (g_tstep g) (g_nt g) (w_t w) = Some (o_times o).
+Proof. exact combined_window. Qed.
+Print Assumptions C11_combined_window.
+
+(* ---- tie T: the TSTEP expression of ioapi_base.sliceDimensions, regenerated from /repo's source on every run
+   (coq/Gen/Times.v slice_tstep): it is HHHMMSS of the step and encodes exactly that many seconds, for every step *)
+Theorem C11_gen_slice_tstep : forall s, slice_tstep s = hhmmss_of_sec s /\ sec_of_hhmmss (slice_tstep s) = s.
+Proof. exact gen_slice_tstep. Qed.
+Print Assumptions C11_gen_slice_tstep.
+
+(* and the hand model writes that expression of the source step whenever more than one step is retained *)
+Theorem C11_gen_slice_time_uses : forall t0 tstep n sdate stime s d h ts cnt st,
+  impl_slice_time t0 tstep n sdate stime (Some s) = Some (d, h, ts) ->
+  sel_range n s = Some (st, cnt) -> 1 < cnt -> ts = slice_tstep (sec_of_hhmmss tstep).
+Proof. exact gen_slice_time_uses. Qed.
+Print Assumptions C11_gen_slice_time_uses.
 
 (* ---- non-vacuity: a combined window (negative int row, slice col, int layer, time window across new year),
    and a 25-hour step kept as 250000 *)
